@@ -283,14 +283,15 @@ func checkC16(c *Ctx) {
 		"(b) the content of the only file write is data-dependent on the complete translation (RootStmtsToGo of ParseAll), and no other file-mutating API is referenced anywhere in fc or pkg/sys; " +
 		"(c) defer OnParseError is the first statement of the success branch of transpileOne, OnParseError is the only caller of recover and exits with a non-zero constant, no os.Exit(0), no goroutines; " +
 		"(d) every hand-written loop of fc/wrapper.go and pkg/* exits at end of input (its continuation condition is false under the end-of-input abstraction, or every cycle passes an idx==len / idx>=len / buf[idx] exit with unit steps) and makes progress (a cursor incremented on every cycle, never decreased); four loops are in a manual table with reasons; " +
-		"(e) unfolding of named/cyclic data is guarded: visited-set consistency between sibling arms of a traversal, depth guard on resolver unfolding."
+		"(e) unfolding of named/cyclic data is guarded: visited-set consistency between sibling arms of a traversal, depth guard on resolver unfolding; " +
+		"(f) parser productivity (ADV): an abstract interpretation computes for every ParseState value whether it has consumed at least one token since the function's own state (psConsume of a non-EOF token: yes; psNext: yes when the current token is known not to be EOF; transformers keep the level; summaries are a greatest fixpoint); the call/callback graph (callbacks merged per function type, bindings are edges from the type) has no cycle made only of non-consuming edges, and every function bound to a ParseList/ParseList2 step or to a grammar callback returns an advanced state — so parsing terminates on every finite token sequence."
 	r.NotDecided = []string{
-		"termination of the parser's token-driven recursion and of the ParseList callback loops (each step consumes a token or panics: nullable analysis through higher-order parameters is out of reach)",
-		"the updateResolver fixpoint", "stack depth proportional to input size, memory exhaustion",
+		"the updateResolver fixpoint and the recursion of type inference/resolution other than the guarded unfoldings",
+		"stack depth proportional to input size (deeply nested input), memory exhaustion",
 	}
 	r.Assumptions = []string{
 		"a Go run-time panic (index out of range, explicit panic) inside the deferred region is recovered by OnParseError and becomes a diagnostic with exit status 1",
-		"ParseList/ParseList2: the step function consumes a token or panics; scanSpaceToken outer loop: each true disjunct of its guard is consumed by the corresponding inner step; nextToken: a SPACE token has positive length",
+		"scanSpaceToken outer loop: each true disjunct of its guard is consumed by the corresponding inner step; nextToken: a SPACE token has positive length; every non-EOF token has positive length, so psNext/psConsume move forward in the buffer",
 	}
 	r.Rule("C16.a", "ok results of sys.ReadFile/WriteFile are tested; failing side reaches a no-return call", 2)
 	r.Rule("C16.b", "the only file write gets the complete translation; no other file-mutating API", 3)
@@ -347,6 +348,9 @@ func checkC16(c *Ctx) {
 
 	// (e)
 	checkUnfoldGuards(c, f, nr)
+
+	// (f)
+	runAdv(c, f, nr)
 }
 
 func short(s string, n int) string {
